@@ -67,7 +67,7 @@ def run_item(item):
     N = item["N"]
     vs, s = sym_sequence(I, N)
     kind = item["kind"]
-    rng = random.Random(N * 7 + item.get("size", 0))
+    rng = seeded_rng(N * 7 + item.get("size", 0))
 
     def cex(m, extra=None):
         d = dict(seq=seq_of_model(m, vs), kind=kind, size=item.get("size"))
